@@ -579,7 +579,14 @@ func stripOAIGen(opts *FlattenOpts) (bool, error) {
 		updateRefParents(opts.Spec.references.allRefs, r)
 	}
 
+	// resolve conflicts in a definite order: re-inlining a definition moves the parents of the ones it holds
+	keys := make([]string, 0, len(opts.flattenContext.newRefs))
 	for k := range opts.flattenContext.newRefs {
+		keys = append(keys, k)
+	}
+	sort.Strings(keys)
+
+	for _, k := range keys {
 		r := opts.flattenContext.newRefs[k]
 		debugLog("newRefs[%s]: isOAIGen: %t, resolved: %t, name: %s, path:%s, #parents: %d, parents: %v,  ref: %s",
 			k, r.isOAIGen, r.resolved, r.newName, r.path, len(r.parents), r.parents, r.schema.Ref.String())
